@@ -46,6 +46,9 @@ pub struct NetStats {
 }
 
 struct SockState {
+    /// identity of the SimSocket that owns this address now (a restarted server re-binds the
+    /// address; the dead process's socket must neither receive nor unbind it)
+    id: u64,
     inbound: VecDeque<(SocketAddr, Vec<u8>)>,
     waker: Option<Waker>,
     group: u32,
@@ -58,6 +61,8 @@ pub struct NetInner {
     /// groups (client indices) whose link to the server is cut; u32::MAX = every client
     blocked: Vec<u32>,
     next_port: u16,
+    next_sock_id: u64,
+    debug_log: Option<std::fs::File>,
     pub stats: NetStats,
     pub trace: Hasher64,
     last_deliver_at: HashMap<(SocketAddr, SocketAddr), Instant>,
@@ -91,6 +96,8 @@ impl SimNet {
                 cfg,
                 blocked: vec![],
                 next_port: 20_000,
+                next_sock_id: 1,
+                debug_log: std::env::var("DST_NETLOG").ok().and_then(|p| std::fs::OpenOptions::new().create(true).append(true).open(p).ok()).map(|mut f| { use std::io::Write; let _ = writeln!(f, "=== run seed {}", cfg.seed); f }),
                 stats: NetStats::default(),
                 trace: Hasher64::default(),
                 last_deliver_at: HashMap::new(),
@@ -153,14 +160,28 @@ impl SimNet {
 
     fn bind_at(&self, addr: SocketAddr, group: u32) -> SimSocket {
         let mut i = self.lock();
-        i.sockets.insert(addr, SockState { inbound: VecDeque::new(), waker: None, group });
+        let id = i.next_sock_id;
+        i.next_sock_id += 1;
+        i.sockets.insert(addr, SockState { id, inbound: VecDeque::new(), waker: None, group });
         let ms = now_std().duration_since(i.start).as_millis() as u64;
         i.endpoints_created.push((addr, group, ms));
-        SimSocket { net: self.clone(), addr }
+        SimSocket { net: self.clone(), addr, id }
     }
 
-    fn unbind(&self, addr: SocketAddr) {
+    fn unbind(&self, addr: SocketAddr, id: u64) {
+        let mut i = self.lock();
+        if i.sockets.get(&addr).map(|s| s.id) == Some(id) {
+            i.sockets.remove(&addr);
+        }
+    }
+
+    /// Process death: whatever socket holds `addr` goes silent (no close is sent to anybody).
+    pub fn kill(&self, addr: SocketAddr) {
         self.lock().sockets.remove(&addr);
+    }
+
+    fn owns(&self, addr: SocketAddr, id: u64) -> bool {
+        self.lock().sockets.get(&addr).map(|s| s.id) == Some(id)
     }
 
     fn deliver(&self, src: SocketAddr, dst: SocketAddr, data: Vec<u8>) {
@@ -187,6 +208,11 @@ impl SimNet {
         let len = data.len() as u64;
         i.trace.word(ms);
         i.trace.word(((src.port() as u64) << 32) | ((dst.port() as u64) << 16) | (len & 0xffff));
+        if let Some(log) = i.debug_log.as_mut() {
+            use std::io::Write;
+            let (c, b) = unsafe { (crate::worker::detrand_call_count(), crate::worker::detrand_byte_count()) };
+            let _ = writeln!(log, "{ms} {}:{} -> {}:{} len {len} entropy_calls {c} bytes {b}", src.ip(), src.port(), dst.ip(), dst.port());
+        }
         // partition?
         let sg = i.sockets.get(&src).map(|s| s.group);
         let dg = i.sockets.get(&dst).map(|s| s.group);
@@ -235,6 +261,7 @@ impl SimNet {
 pub struct SimSocket {
     net: SimNet,
     addr: SocketAddr,
+    id: u64,
 }
 
 impl fmt::Debug for SimSocket {
@@ -245,12 +272,16 @@ impl fmt::Debug for SimSocket {
 
 impl Drop for SimSocket {
     fn drop(&mut self) {
-        self.net.unbind(self.addr);
+        self.net.unbind(self.addr, self.id);
     }
 }
 
 impl AsyncUdpSocket for SimSocket {
     fn poll_send(&self, _state: &UdpState, _cx: &mut Context, transmits: &[Transmit]) -> Poll<Result<usize, io::Error>> {
+        if !self.net.owns(self.addr, self.id) {
+            // a dead process sends nothing
+            return Poll::Ready(Ok(transmits.len()));
+        }
         for t in transmits {
             match t.segment_size {
                 Some(seg) if seg > 0 => {
@@ -266,8 +297,10 @@ impl AsyncUdpSocket for SimSocket {
 
     fn poll_recv(&self, cx: &mut Context, bufs: &mut [IoSliceMut<'_>], meta: &mut [RecvMeta]) -> Poll<io::Result<usize>> {
         let mut i = self.net.lock();
-        let Some(s) = i.sockets.get_mut(&self.addr) else {
-            return Poll::Ready(Err(io::Error::new(io::ErrorKind::NotConnected, "socket closed")));
+        let id = self.id;
+        let Some(s) = i.sockets.get_mut(&self.addr).filter(|s| s.id == id) else {
+            // a dead process receives nothing, ever
+            return Poll::Pending;
         };
         let mut n = 0;
         while n < bufs.len() && n < meta.len() {
